@@ -110,7 +110,9 @@ var c14KeyedPlain = []string{"map.remove", "doc.delete"}
 var c14OpKinds = []string{"map.put", "list.insert", "list.insert2", "list.update", "doc.put", "doc.arrinsert", "doc.arrupdate", "doc.put-nested"}
 
 // non-value operations
-var c14Plain = []string{"counter.inc1", "counter.incmax", "counter.incmin", "map.remove", "list.delete", "list.deletemany", "doc.delete", "doc.arrdelete", "tx"}
+var c14Plain = []string{"counter.inc1", "counter.incmax", "counter.incmin", "map.remove", "list.delete", "list.deletemany", "doc.delete", "doc.arrdelete", "tx",
+	// batches of no values at all: accepted or refused, but whatever the origin queues must survive the wire
+	"list.insert0", "list.update0", "doc.arrinsert0", "doc.arrupdate0", "tx-empty"}
 
 func intKeyed(n int) map[int][]interface{} {
 	m := map[int][]interface{}{}
@@ -346,6 +348,22 @@ func c14Run(kind string, nv *namedValue) (v *pt.Violation, digest string, produc
 			a, _ := r0.doc.GetFromObject("arr")
 			_, ee := a.DeleteManyInArray(0, 2)
 			e = errOf(ee)
+		case "list.insert0":
+			_, ee := r0.li.InsertMany(1)
+			e = errOf(ee)
+		case "list.update0":
+			_, ee := r0.li.Update(0)
+			e = errOf(ee)
+		case "doc.arrinsert0":
+			a, _ := r0.doc.GetFromObject("arr")
+			_, ee := a.InsertToArray(1)
+			e = errOf(ee)
+		case "doc.arrupdate0":
+			a, _ := r0.doc.GetFromObject("arr")
+			_, ee := a.UpdateManyInArray(0)
+			e = errOf(ee)
+		case "tx-empty":
+			e = r0.li.Transaction("empty", func(l oListInTx) error { return nil })
 		case "tx":
 			e = r0.li.Transaction("t\"ag/~", func(l oListInTx) error {
 				l.Insert(0, "in-tx")
@@ -363,6 +381,14 @@ func c14Run(kind string, nv *namedValue) (v *pt.Violation, digest string, produc
 			return viol(sig("null-value-accepted"), "%s accepted %s (%T), which is JSON null on the wire", kind, vname, val), "", 0
 		}
 		return nil, "refused-null", 0
+	}
+	if base := strings.SplitN(kind, "@", 2)[0]; strings.HasSuffix(base, "0") || base == "tx-empty" {
+		if apiErr != nil {
+			return nil, "empty-batch-refused", 0
+		}
+		if len(w.Pending(0)) == 0 {
+			return nil, "empty-batch-queues-nothing", 0
+		}
 	}
 	if apiErr != nil {
 		return viol(sig("api-refuses-json-value"), "%s with JSON-representable value %s (%T) returned %v", kind, vname, val, apiErr), "", 0
